@@ -290,6 +290,11 @@ Inductive case :=
 Definition to_bytes (l : list Z) : bytes := map Z.to_N l.
 
 Definition in_window (d t0 t1 pri : Z) : bool := (t0 + d <=? pri) && (pri <=? t1 + d).
+(* model/implementation agreement only: time.Now().Add(d).UnixNano() wraps around int64 when
+   now + d >= 2^63 (known finding K9: only reachable with max-req-timeout above ~236 years).
+   The property monitors below use the exact [in_window]: a wrapped deadline is a failure. *)
+Definition in_window_wrap (d t0 t1 pri : Z) : bool :=
+  in_window d t0 t1 pri || in_window d t0 t1 (pri + 18446744073709551616).
 
 (* the specification value of a delay parameter, from the mathematical value *)
 Definition spec_ns (p : bytes) : Z := Z.of_N (dec_value p) * 1000000.
@@ -321,7 +326,7 @@ Definition judge (c : case) : N :=
       let agree := match req_param max_req b with
                    | ReqInvalid => outcome =? 0
                    | ReqDelay d => if d =? 0 then outcome =? 2
-                                   else (outcome =? 1) && in_window d t0 t1 pri
+                                   else (outcome =? 1) && in_window_wrap d t0 t1 pri
                    end in
       let mon :=
         if all_digits b then
@@ -334,7 +339,7 @@ Definition judge (c : case) : N :=
       let agree := match dpub_param max_req b with
                    | DpubInvalid => outcome =? 0
                    | DpubDelay d => if d =? 0 then outcome =? 2
-                                    else (outcome =? 1) && in_window d t0 t1 pri
+                                    else (outcome =? 1) && in_window_wrap d t0 t1 pri
                    end in
       let mon :=
         if all_digits b && (spec_ns b <=? max_req) then
@@ -347,7 +352,7 @@ Definition judge (c : case) : N :=
       let agree := match http_defer_raw max_req b with
                    | DpubInvalid => outcome =? 0
                    | DpubDelay d => if d =? 0 then outcome =? 2
-                                    else (outcome =? 1) && in_window d t0 t1 pri
+                                    else (outcome =? 1) && in_window_wrap d t0 t1 pri
                    end in
       (* spec: an optionally signed decimal integer whose value v satisfies 0 <= v*10^6 <= max *)
       let '(neg, body) := match b with
